@@ -13,7 +13,9 @@ Local Open Scope N_scope.
                     zero-extension rule of the register class (GP: 32-bit writes clear bits 63:32 in 64-bit mode and a `W:`
                     range narrower than the register zeroes the rest of it; VEX/EVEX/XOP vector writes zero up to byte 63;
                     mask registers up to byte 7; legacy SSE/MMX `W:` up to the register size)
-   e_gpexact        the operand is a general-purpose register: the reported written/extended bytes must be EXACTLY e_changed
+   e_gpexact        exactness (register operands of the allocatable groups - general-purpose, vector, mask, MMX - with a known written
+                    range or not written at all, and memory operands of 1..64 bytes): the reported written/extended bytes must stay
+                    INSIDE e_changed, and an operand the database does not write must not be reported as written
    e_phys           Some (flag, id): fixed register (flag = kRegPhysId) or fixed base register (flag = kMemPhysId)
    e_clc / e_consec lead of a run of e_clc consecutive registers / a follower of the run
    e_memsizes       memory operand sizes (bytes) the database allows at this position when the other operands stay as they are *)
